@@ -4,8 +4,8 @@ PROP = {
     "rule": "Public client calls on a scripted connection (tcp and rtuovertcp framing), peer silent: all 30 read/write calls x "
             "boundary-directed addresses/quantities/slice lengths (0, 1, limit-1, limit, limit+1, 65535, lengths >= 65536, "
             "multi-register counts whose register total overflows 16 bits) x unit ids x byte/word orders; observables: error class "
-            "and every Write call's bytes. Plus a sweep over the quantities of the typed multi-register reads.",
-    "assumptions": ["udp/tls/serial transports share the same request construction; their wiring is covered by C16"],
+            "and every Write call's bytes. Plus a sweep over the quantities of the typed multi-register reads, and scenario txreal: NewClient + real Open() for tcp, udp, tcp+tls (real handshake), rtuovertcp, rtuoverudp and rtu (pty), random calls, the bytes the silent loopback peer received compared with the model frame.",
+    "assumptions": ["the bulk of the cases run on the scripted connection (tcp and rtuovertcp framing); all six transports are exercised through the real Open() on loopback sockets / a pty with a smaller number of calls (scenario txreal)"],
 }
 CLAIM = {
   "text": "Coq theorems over the client model: for EVERY public read/write call, address, quantity, slice length (incl. >= 65536 and register totals overflowing 16 bits), value, unit id, byte/word order and both framings, the request PDU equals the Modbus encoding exactly when the arguments are within protocol limits (c01_request_exact) and then exactly one frame (MBAP header / RTU CRC = bit-serial reference) is written, otherwise nothing is written and the unexpected-parameters error is returned (c01_transmit). The model is compared with the real client's Write calls on every run.",
